@@ -4,6 +4,7 @@ import (
 	"fmt"
 	"go/ast"
 	"go/types"
+	"strings"
 
 	"golang.org/x/tools/go/ssa"
 )
@@ -176,6 +177,14 @@ func (x *Exec) loopSpecFor(fr *Frame, lp *loop) *loopSpec {
 // resolveName finds the SSA value holding source variable name at header hdr.
 func (x *Exec) resolveName(fr *Frame, hdr *ssa.BasicBlock, name string, st *State) Value {
 	fn := fr.fn
+	if strings.HasPrefix(name, "old:") {
+		for _, p := range fn.Params {
+			if p.Name() == name[4:] {
+				return x.get(fr, p)
+			}
+		}
+		unsup("old(%s): no such parameter", name[4:])
+	}
 	for _, ins := range hdr.Instrs {
 		if phi, ok := ins.(*ssa.Phi); ok && phi.Comment == name {
 			return x.get(fr, phi)
